@@ -2416,7 +2416,7 @@ def specialise_walkers(tree, resolve_def):
             ren = {v: _name('%s__%s' % (d.name.strip('_'), v)) for v in locals_ if v in used}
             for p, a in zip(ps[1:], call.args[1:]):
                 ren[p] = a
-            p0 = ps[0] if ps[0] not in used else '%s__%s' % (d.name.strip('_'), ps[0])
+            p0 = ps[0] if ps[0] not in used else ('node' if 'node' not in used and 'node' not in locals_ else '%s__%s' % (d.name.strip('_'), ps[0]))
             ren[ps[0]] = _name(p0)
             new_body = []
             for st_ in d.body:
